@@ -26,6 +26,7 @@ CONSTANTS MaxDepth,      \* nesting depth of signatures (1 = ports only)
           MaxMembers,    \* members in the whole tree (ports + sub-signatures)
           PortDims, SubDims,   \* sets of dimension tuples
           PortAttrs,     \* set of [w, s, init]
+          AggAttrs,      \* set of <<aggregate shape, how its initial value is given>> for shape-castable ports
           SubFlips,      \* subset of BOOLEAN: sub-signature descriptions written as X / X.flip()
           Variants,      \* BOOLEAN: also compute all single-point corruptions
           Triples,       \* BOOLEAN: corruptions of the 3-tuple <<S,F,F>> as well
@@ -44,11 +45,77 @@ S2(i) == [w |-> 2, s |-> TRUE,  init |-> i]
 AttrsAll  == {U1(0), U1(1), U2(0), U2(1), S2(0), S2(1)}
 AttrsFew  == {U1(0), S2(1)}
 AttrsOne  == {U2(1)}
+AttrsNone == {}
 FlipsBoth == BOOLEAN
 FlipsNo   == {FALSE}
 NmAnon    == {"anon"}
 NmNamed   == {"ident", "struct"}
 NmAll     == {"anon", "ident", "struct"}
+
+(* ---- ports whose shape is a shape-castable aggregate (lib.data layouts / Struct classes,    *)
+(* shaped enumerations).  The port is as wide as the aggregate, unsigned, and its initial value  *)
+(* -- what the created Signal powers up with, what is_compliant / connect compare and what the   *)
+(* component metadata must list -- is the bit pattern of the aggregate's constant:               *)
+(*   Layout.const(init): "a view with this layout that was initialized with an all-zero value    *)
+(*   and had every field assigned to the corresponding value ... in init";  for a data.Struct    *)
+(*   class "the values assigned to [the] annotations are used to populate the initial value",    *)
+(*   an explicit init overriding them field by field;  init = None: the shape's own default.     *)
+(* types: Sc(w, signed)  En(w)  St(fields <<[n, t, d (class default)]>>, is it a Struct class)  Ar(t, n) *)
+(* values: Zero, IntV(v), MapV(name :> value), SeqV(<<values>>)                                   *)
+Zero == [k |-> "zero"]
+IntV(v) == [k |-> "int", v |-> v]
+MapV(m) == [k |-> "map", m |-> m]
+SeqV(q) == [k |-> "seq", q |-> q]
+Sc(w, sg) == [k |-> "sc", w |-> w, sg |-> sg]
+En(w) == [k |-> "en", w |-> w]
+St(fs, cls) == [k |-> "st", fs |-> fs, cls |-> cls]
+Ar(t, n) == [k |-> "ar", t |-> t, n |-> n]
+Fd(n, t, d) == [n |-> n, t |-> t, d |-> d]
+RECURSIVE SumF(_, _)
+SumF(f, n) == IF n = 0 THEN 0 ELSE f[n] + SumF(f, n - 1)
+RECURSIVE TWidth(_)
+TWidth(t) == CASE t.k \in {"sc", "en"} -> t.w
+               [] t.k = "st" -> SumF([i \in DOMAIN t.fs |-> TWidth(t.fs[i].t)], Len(t.fs))
+               [] t.k = "ar" -> t.n * TWidth(t.t)
+FOffset(t, i) == SumF([j \in DOMAIN t.fs |-> TWidth(t.fs[j].t)], i - 1)
+RECURSIVE Pat(_, _)
+Pat(t, v) ==       \* bit pattern of the constant of type t given by v; unmentioned fields are zero
+    IF v.k = "zero" THEN 0
+    ELSE CASE t.k \in {"sc", "en"} -> (v.v + 4 * (2 ^ t.w)) % (2 ^ t.w)
+           [] t.k = "st" -> SumF([i \in DOMAIN t.fs |-> (2 ^ FOffset(t, i)) *
+                                   Pat(t.fs[i].t, IF t.fs[i].n \in DOMAIN v.m THEN v.m[t.fs[i].n] ELSE Zero)], Len(t.fs))
+           [] t.k = "ar" -> SumF([i \in 1..t.n |-> (2 ^ ((i - 1) * TWidth(t.t))) *
+                                   Pat(t.t, IF i \in DOMAIN v.q THEN v.q[i] ELSE Zero)], t.n)
+(* the value of Const(init, shape): class defaults, overridden by the given fields *)
+ClassDefaults(t) == [n \in {t.fs[i].n : i \in {j \in DOMAIN t.fs : t.fs[j].d.k # "zero"}} |->
+                       (CHOOSE f \in {t.fs[i] : i \in DOMAIN t.fs} : f.n = n).d]
+InitValue(t, given) ==
+    IF t.k = "st" /\ t.cls
+    THEN LET d == ClassDefaults(t)
+             g == IF given.k = "map" THEN given.m ELSE <<>> IN
+         MapV([n \in DOMAIN d \cup DOMAIN g |-> IF n \in DOMAIN g THEN g[n] ELSE d[n]])
+    ELSE given
+(* the catalogue (mirrored by AGG in harness/props/c14.py) *)
+AggT(g) == CASE g = "slayout" -> St(<<Fd("a", Sc(2, FALSE), Zero), Fd("b", Sc(3, TRUE), Zero)>>, FALSE)
+             [] g = "sclass"  -> St(<<Fd("a", Sc(2, FALSE), IntV(3)), Fd("b", Sc(3, TRUE), IntV(-1))>>, TRUE)
+             [] g = "arr"     -> Ar(Sc(2, FALSE), 3)
+             [] g = "nest"    -> St(<<Fd("x", Ar(Sc(1, FALSE), 2), Zero),
+                                      Fd("y", St(<<Fd("a", Sc(2, FALSE), Zero)>>, FALSE), Zero)>>, FALSE)
+             [] g = "enum"    -> En(2)
+AggGiven(g, ini) ==      \* ini: "none" (init=None), "dict" (mapping / sequence / enum member A), "const" (a constant object)
+    IF ini = "none" THEN Zero
+    ELSE CASE g = "slayout" -> MapV(("a" :> IntV(1)) @@ ("b" :> IntV(-2)))
+           [] g = "sclass"  -> MapV("b" :> IntV(2))
+           [] g = "arr"     -> SeqV(<<IntV(1), IntV(2), IntV(3)>>)
+           [] g = "nest"    -> MapV(("x" :> SeqV(<<IntV(1), IntV(0)>>)) @@ ("y" :> MapV("a" :> IntV(2))))
+           [] g = "enum"    -> IF ini = "dict" THEN IntV(1) ELSE IntV(2)    \* members B = 2 (first), A = 1
+AggInit(a) == Pat(AggT(a[1]), InitValue(AggT(a[1]), AggGiven(a[1], a[2])))
+AggAll  == {<<"slayout", "none">>, <<"slayout", "dict">>, <<"slayout", "const">>,
+            <<"sclass", "none">>, <<"sclass", "dict">>, <<"sclass", "const">>,
+            <<"arr", "none">>, <<"arr", "dict">>, <<"nest", "dict">>, <<"nest", "const">>,
+            <<"enum", "dict">>, <<"enum", "const">>}
+AggFew  == {<<"sclass", "none">>, <<"sclass", "dict">>, <<"slayout", "const">>, <<"arr", "dict">>, <<"enum", "const">>}
+AggNone == {}
 
 VARIABLES stack,   \* frames [flow, dims, fl, ms]; stack[1] is the signature under construction
           exp      \* expected observations for the tree when the stack is closed
@@ -409,6 +476,9 @@ Expect4(x, s, f, fs, ff, ls, lf, as, af, ns, nf) ==
      eqData  |-> ([nm |-> "anon", id |-> 0, fl |-> FALSE, ms |-> Mem(f)] = f),   \* Signature(flipped members) == sig.flip()
      flatS   |-> EncLeaves(fs),                           \* <<path, flow, w, s, init>>, ...
      flatF   |-> EncLeaves(ff),
+     \* component metadata: for every leaf <<path, dir, width, signed, init>>, init = what the Signal powers up with
+     leafmetaS |-> [i \in DOMAIN fs |-> <<fs[i].path, IF fs[i].flow = "In" THEN "in" ELSE "out", fs[i].w, fs[i].s, fs[i].init>>],
+     leafmetaF |-> [i \in DOMAIN ff |-> <<ff[i].path, IF ff[i].flow = "In" THEN "in" ELSE "out", ff[i].w, ff[i].s, ff[i].init>>],
      eqFlip  |-> (s = f),                                 \* sig == sig.flip()
      eqFF    |-> (Flip(f) = s),                           \* sig.flip().flip() == sig
      compSS  |-> Compliant(s, ls, ns, Created(s, ls, ns)),        \* sig.is_compliant(sig.create())
@@ -459,7 +529,14 @@ Push(st, m) == [st EXCEPT ![Len(st)].ms = Append(@, m)]
 AddPort(flow, dims, a) ==
     /\ Room
     /\ LET m == [name |-> NextName, flow |-> flow, dims |-> dims, kind |-> "port",
-                 w |-> a.w, s |-> a.s, init |-> a.init, sub |-> NoSub] IN
+                 w |-> a.w, s |-> a.s, init |-> a.init, agg |-> "", ini |-> "", sub |-> NoSub] IN
+       stack' = Push(stack, m)
+    /\ exp' = ExpOf(stack')
+
+AddAggPort(flow, dims, a) ==      \* a port shaped by the aggregate a[1], its initial value given as a[2]
+    /\ Room
+    /\ LET m == [name |-> NextName, flow |-> flow, dims |-> dims, kind |-> "port",
+                 w |-> TWidth(AggT(a[1])), s |-> FALSE, init |-> AggInit(a), agg |-> a[1], ini |-> a[2], sub |-> NoSub] IN
        stack' = Push(stack, m)
     /\ exp' = ExpOf(stack')
 
@@ -473,7 +550,7 @@ CloseSub ==
     /\ LET fr == Top
            st == SubSeq(stack, 1, Len(stack) - 1)
            m == [name |-> Names(Len(st))[Len(st[Len(st)].ms) + 1], flow |-> fr.flow, dims |-> fr.dims,
-                 kind |-> "sig", w |-> 0, s |-> FALSE, init |-> 0,
+                 kind |-> "sig", w |-> 0, s |-> FALSE, init |-> 0, agg |-> "", ini |-> "",
                  sub |-> [fl |-> fr.fl, ms |-> fr.ms, nm |-> fr.nm,
                           \* a new object: ids are the number of signatures closed so far (struct: class parameter 7)
                           id |-> IF fr.nm = "ident" THEN 1 + SumSeq([i \in DOMAIN stack |-> CountSigs(stack[i].ms)])
@@ -492,6 +569,7 @@ ReuseSub(flow, dims, fl) ==
     /\ exp' = ExpOf(stack')
 
 Next == \/ \E flow \in {"In", "Out"}, dims \in PortDims, a \in PortAttrs : AddPort(flow, dims, a)
+        \/ \E flow \in {"In", "Out"}, dims \in PortDims, a \in AggAttrs : AddAggPort(flow, dims, a)
         \/ \E flow \in {"In", "Out"}, dims \in SubDims, fl \in SubFlips, nm \in SubNm : OpenSub(flow, dims, fl, nm)
         \/ CloseSub
         \/ \E flow \in {"In", "Out"}, dims \in SubDims, fl \in BOOLEAN : ReuseSub(flow, dims, fl)
